@@ -25,30 +25,37 @@ from tools import common, shroudrun
 LEVEL = "proof"
 MANIFEST = dict(
     category="proof",
-    text="PARTIAL. Proved in Lean 4, for all inputs: the helper dependency closure used by all four emitters (DFS with a done "
-         "set) terminates on every helper table, emits exactly the requested helpers and their transitive dependencies, each "
-         "once, and on acyclic tables every helper after its dependencies; table theorems over data regenerated from the working "
-         "tree on every run: CHelpers/FHelpers/LuaHelpers are closed (no KeyError) and acyclic (kernel-checked rank certificate), "
-         "every {field} placeholder of every fc/py/lua statement template is a format field that exists for its entry kind; "
-         "Header.write_headers and the bracket lines of the four C wrapper file skeletons are #if/#endif- and extern-\"C\"-balanced "
-         "for every option combination; the Fortran USE/IMPORT bookkeeping (update_f_module, update_f_module_line, set_f_module, "
-         "sort_module_info) is a merge: monotone, complete, order-independent as a set, and the USE lines list every required "
-         "symbol; table theorem: every iso_c_binding symbol named in a declaration template of a statement entry is supplied by the "
-         "entry's f_module / f_module_line (f_ entries: or by the emitter's literal additions). NOT proved: that gcc/g++/gfortran accept the emitted text, and linking. That part is an "
-         "exploration oracle: real Shroud on the upstream corpus and on generated libraries x {c,c++} x wrapper subsets x F_CFI x "
-         "{debug,doxygen,literalinclude,show_splicer_comments} x line lengths, every written file compiled with -fsyntax-only "
-         "(headers alone from C and C++, Fortran in module order, Python against CPython headers, Lua against an emulator header).",
+    text="PARTIAL. Proved in Lean 4 (31 theorems, for all inputs unless a table is named): (1) helper dependency closure used by all four "
+         "emitters (gather_helper_code, DFS with a done set): terminates on every table, emits exactly the requested helpers and their "
+         "transitive dependencies, each once, and on acyclic tables every helper after its dependencies (order fails on a cycle: witness); "
+         "(2) table theorems over data regenerated from the working tree on every run: CHelpers/FHelpers/LuaHelpers closed (no KeyError) and "
+         "acyclic (kernel-checked rank certificate); every {field} placeholder of every fc/py/lua statement template is a format field that "
+         "exists for its entry kind; every iso_c_binding symbol named by a declaration template of a statement entry is supplied by the "
+         "entry's f_module / f_module_line (f_ entries: or by the emitter's literal additions); (3) Header.write_headers and the bracket "
+         "lines of the four C wrapper file skeletons are #if/#endif- and extern-C-balanced for every option combination; 'each header at "
+         "most once' only as write_headers_includes_once_partial (hypothesis needed, unconditional statement refuted); (4) the Fortran "
+         "USE/IMPORT bookkeeping is a merge: exact, monotone, complete, order-independent as a set, and the USE lines list every required "
+         "symbol (an empty ONLY dict followed by a symbol request narrows 'use m': witness only_clause_can_narrow). NOT proved: that "
+         "gcc/g++/gfortran accept the emitted text and that the objects link. That part is an exploration oracle: real Shroud on the 50 "
+         "upstream configurations x 14 option variants, on generated libraries (libgen, pygen, luagen, c05gen options x features matrix) x "
+         "{c,c++} x wrapper subsets x F_CFI x {debug,doxygen,literalinclude,show_splicer_comments} x line lengths; every written file "
+         "through -fsyntax-only (headers alone from C and C++, Fortran in module order, cpp_if macros undefined and defined, Python against "
+         "CPython headers, Lua against an emulator header), and a LINK step: all generated C/C++/Fortran objects plus the library "
+         "implementation (upstream sources, or a synthesized stub for generated libraries) into one shared object with --no-undefined.",
     design="3 C05",
-    note="Category 'proof' covers only the logic part (helper closure, table closedness/acyclicity, placeholder closure, bracket "
-         "balance). Compilation is observed on sampled inputs, never proved; no link step is run (no duplicate/missing symbol "
-         "check); NumPy-using Python files are skipped (headers absent); Lua files compile against tools/ccheck/luaemu, not Lua. "
-         "Trusted: Lean kernel; tools/extract_helpers.py (reads the tables the emitters read; 'provided fields' = fields visible in "
-         "the Scope handed to wformat during real corpus runs plus an AST scan of fmt.<name> assignments, an over-approximation); "
-         "hand-written model of gather_helper_code/write_headers/skeletons validated differentially. 'Each header included at most "
-         "once' holds only under a stated hypothesis (write_headers_includes_once_partial); the unconditional statement is refuted "
-         "(write_headers_may_repeat).",
-    technique="Lean 4 proof (induction on DFS depth with a done-set measure, decide +kernel over regenerated tables) + differential "
-              "correspondence + compile exploration oracle",
+    note="Category 'proof' covers only the logic part (1)-(4). Compilation and linking are observed on sampled inputs, never proved. The link "
+         "step links C/C++/Fortran wrapper objects only (no Python/Lua extension objects); thorough tier: every upstream configuration that "
+         "ships sources and every generated library, quick tier: 8 configurations and a quarter of the generated libraries. NumPy-using Python "
+         "files are skipped (headers absent); Lua files compile against tools/ccheck/luaemu, not Lua. A committed baseline "
+         "(corpus/c05_baseline.json, rewritten only by `python -m tools.props.c05 --write-baseline`) makes every file/link that used to "
+         "succeed a failing input when it fails; the 'library header does not declare it' exclusion applies only to upstream configurations "
+         "without a shipped header and never to generated libraries. Trusted: Lean kernel; tools/extract_helpers.py (helper tables, "
+         "placeholder/provided-field sets = union over real corpus runs + AST scan, an over-approximation; declaration-symbol rows use "
+         "literal C_* tokens, {f_type} of explicit interface declarations counted as {f_kind}; the emitter's own additions are one global "
+         "set); hand-written models of gather_helper_code, write_headers, the wrapc skeletons and the USE/IMPORT merge, validated "
+         "differentially on every run.",
+    technique="Lean 4 proof (induction on DFS depth with a done-set measure, list-merge lemmas, decide +kernel over regenerated tables) + "
+              "differential correspondence (four ties) + compile-and-link exploration oracle with committed baseline",
 )
 MODULES = ["ShroudVerif.Props.C05"]
 THEOREMS = {
@@ -597,6 +604,7 @@ def table_oracle(ctx, info, data):
 
 # ---------------------------------------------------------------------------------------------- compile oracle
 QUICK_VARIANT_CONFIGS = ["tutorial", "strings", "clibrary", "classes"]
+QUICK_LINK_CONFIGS = ["tutorial", "strings", "clibrary", "classes", "vectors", "struct-c", "pointers-c", "enum-c"]
 VARIANTS = [
     ("debug", ["debug=true"]),
     ("nodoxygen", ["doxygen=false"]),
@@ -635,10 +643,12 @@ def corpus_specs(thorough):
         own_header = bool(hnames) and all(any(os.path.exists(os.path.join(d, h)) for d in own) for h in hnames)
         base = dict(own_header=own_header, tag=n, config=n, yaml=shroudrun.corpus_yaml(y), options=["debug_testsuite=true"] + opts, language=lang, incdirs=inc,
                     write_version=wv)
+        if own and n not in EXCLUDE_COMPILE and (thorough or n in QUICK_LINK_CONFIGS):
+            base = dict(base, link=True, impl_dirs=own)
         specs.append(base)
         if n in QUICK_VARIANT_CONFIGS or (thorough and n not in EXCLUDE_COMPILE and not opts):
             for vn, vopts in VARIANTS:
-                specs.append(dict(base, tag="%s+%s" % (n, vn), options=base["options"] + vopts))
+                specs.append(dict(base, tag="%s+%s" % (n, vn), options=base["options"] + vopts, link=False))
     return specs
 
 
@@ -661,7 +671,8 @@ def gen_specs(r, thorough):
             vn, vopts = "base", []
         specs.append(dict(tag="gen%d+%s" % (i, vn), config="gen", yaml_text=lib.yaml(), yaml_name="glib.yaml",
                           options=["wrap_python=false", "wrap_lua=false"] + vopts,
-                          language=None, incdirs=[], header=hdrgen.header(lib), gen=True))
+                          language=None, incdirs=[], header=hdrgen.header(lib), gen=True,
+                          link=(thorough or i % 4 == 0), stub=hdrgen.stub_from_dict(lib.todict())))
     npy = 16 if thorough else 4
     for i in range(npy):
         try:
@@ -716,7 +727,7 @@ def feature_specs(r, thorough):
             specs.append(dict(tag="fgen%d:%s+%s" % (n, feat, vn), config="fgen", yaml_text=lib["yaml_text"], yaml_name="flib.yaml",
                               options=["wrap_python=false", "wrap_lua=false"] + list(vopts), language=None, incdirs=[],
                               headers=hdrgen.headers_from_dict(lib["dict"]), defines=lib["defines"], gen=True,
-                              features=lib["features"]))
+                              features=lib["features"], link=(thorough or n % 4 == 1), stub=hdrgen.stub_from_dict(lib["dict"])))
     return specs, matrix
 
 
@@ -745,6 +756,8 @@ def write_baseline():
         base[spec["tag"]] = {"%s|%s" % (x["file"], x["tool"]): (x["status"] if x["status"] != "fail" else "fail:" + x["err"])
                              for x in res["results"]}
         base[spec["tag"]]["__shroud__"] = "ok"
+        if res.get("link"):
+            base[spec["tag"]]["__link__"] = res["link"]["status"] if res["link"]["status"] != "fail" else "fail:" + "; ".join(res["link"]["messages"][:3])
     json.dump({"repo_commit": os.popen("git -C %s rev-parse --short HEAD" % common.REPO).read().strip(), "verdicts": base},
               open(BASELINE, "w"), indent=0, sort_keys=True)
     return len(base)
@@ -802,6 +815,7 @@ def compile_oracle(ctx, r, thorough, data=None):
                 results[i] = res
         ctx.note("jobs_repeated_after_import_race", len(again))
     stats, skipped, excl, rejected = {}, {}, {}, {}
+    linkstats, linkskips = {}, {}
     ndup = []
     for spec, res in zip(specs, results):
         ctx.count(1)
@@ -840,6 +854,22 @@ def compile_oracle(ctx, r, thorough, data=None):
                 ctx.fail("%s:%s:%s" % (spec["config"], kfile, kerr),
                          "%s rejects %s generated for %s: %s" % (x["tool"], x["file"], tag, x["err"]),
                          dict(rp, file=x["file"], tool=x["tool"], log=x["log"]))
+        lk = res.get("link")
+        if lk:
+            linkstats[lk["status"]] = linkstats.get(lk["status"], 0) + 1
+            if lk["status"] == "skip":
+                linkskips[lk["why"][:90]] = linkskips.get(lk["why"][:90], 0) + 1
+            if lk["status"] == "fail":
+                bl = baseline.get(tag, {}).get("__link__")
+                for msg in lk["messages"]:
+                    sym = re.sub(r"\(.*", "", msg.split("'")[1]).split("::")[-1] if "'" in msg else ""
+                    if not spec.get("gen") and bl != "ok" and msg.startswith("undefined reference") and sym and \
+                            re.search(r"\b%s\b" % re.escape(sym), lk.get("library_text", "")):
+                        excl["%s:link:%s" % (tag, sym)] = "the upstream library sources declare %s but do not define it" % sym
+                        continue
+                    kmsg = re.sub(r"\d+", "#", msg) if spec.get("gen") else msg
+                    ctx.fail("%s:link:%s" % (spec["config"], kmsg),
+                             "linking the generated objects of %s with the library: %s" % (tag, msg), dict(rp, log=lk.get("log", "")))
         for b in res["brackets"]:
             ctx.fail("%s:%s" % (spec["config"], b), "unbalanced brackets in generated file (%s, %s)" % (tag, b), rp)
         if res["dups"]:
@@ -861,6 +891,7 @@ def compile_oracle(ctx, r, thorough, data=None):
         "files_by_tool_status": {"%s/%s" % k: v for k, v in sorted(stats.items())},
         "skipped": skipped, "excluded_by_rule": dict(list(excl.items())[:40]), "excluded_count": len(excl),
         "duplicate_include_lines_seen": ndup[:10], "rejected_with_diagnostic": rejected,
+        "link": {"by_status": linkstats, "skipped": linkskips},
         "options_x_features_matrix": matrix, "generator_skips": getattr(gen_specs, "skipped", []), "baseline_entries": len(baseline),
     })
     ctx.sample({"compile": {"configurations": len(specs), "ok_files": sum(v for k, v in stats.items() if k[1] == "ok")}})
@@ -928,9 +959,10 @@ def run(ctx):
     ctx.cov["rule"] = ("evaluations = tie comparisons (one per emitter and request; per header state; per skeleton case) + table rows + "
                        "compile-oracle configurations; non-trivial = gather results whose emission order differs from sorted order or "
                        "that raise KeyError, header states with conditional includes, skeleton option combinations, configurations "
-                       "compiled by >= 2 different tools")
+                       "compiled by >= 2 different tools; USE/IMPORT call sequences touching >= 2 modules")
     ctx.assumptions += [
-        "compiler acceptance is observed on sampled inputs, not proved; no link step",
+        "compiler acceptance and linking are observed on sampled inputs, not proved; the link step covers C/C++/Fortran wrapper objects "
+        "with the library implementation (upstream sources or a synthesized trivial stub), not the Python/Lua extension objects",
         "content between the bracket lines (declarations, helper sources, splicer text, cpp_if text) is neutral for the #if and "
         "extern \"C\" counters",
         "provided-field sets are unions over the corpus: a field provided only on some paths of an emitter counts as provided",
